@@ -574,7 +574,7 @@ def run_path(fn: Callable, params: dict, ctx: Ctx):
             pass
         except Unsupported as e2:
             return "error", "Unsupported while reporting: %s" % e2
-        return "done", None
+        return "escaped", None
     finally:
         _CUR = prev
 
@@ -623,6 +623,8 @@ def explore(fn, params, prefix=(), opts=None, budget_s=None, max_paths=None) -> 
                     )
                 except (PathAbort, PathCut):
                     pass
+        elif outcome == "escaped":
+            res.paths += 1
         elif outcome == "abort":
             res.aborted += 1
             if ctx.pos < n0:
